@@ -100,7 +100,7 @@ structure Doc where
   deriving DecidableEq, Repr, Inhabited
 
 inductive Err where
-  /-- `exceptions.ConfigurationError` (kind ∈ unknownRule, deprecated) -/
+  /-- `exceptions.ConfigurationError` (kind ∈ unknownRule, deprecated, unknownSeverity) -/
   | config (kind : String) (detail : String)
   /-- any other Python exception: a traceback -/
   | py (exc : String) (detail : String)
@@ -228,12 +228,25 @@ structure RuleObj where
 def structuralKeys : List String :=
   ["name", "identifier", "unique_id", "groups", "configuration", "options", "deprecated", "debug"]
 
-/-- `self.severity = oConfig.severity_list.get_severity_named(v)`; the per-file `config.config()` object
-    has no `severity_list` attribute -/
+/-- `str(sName)` of a configured severity value, for the message of the configuration error -/
+def sevNameStr : Val → String
+  | .str s => s
+  | .int i => toString i
+  | .bool b => if b then "True" else "False"
+  | .null => "None"
+  | .list _ => "[…]"
+  | .other j => j
+
+/-- `self.severity = get_configured_severity(oConfig, v)` (rule.py, repaired): a name no severity has is a
+    ConfigurationError (kind `unknownSeverity`; it used to leave `severity = None`, and the run ended in an
+    AttributeError traceback); the per-file `config.config()` object has no `severity_list` attribute -/
 def setSeverity (sevs : Option (List Sev)) (r : RuleObj) (v : Val) : Except Err RuleObj :=
   match sevs with
   | none => .error (.py "AttributeError" "'config' object has no attribute 'severity_list'")
-  | some sl => .ok { r with severity := getSeverityNamed sl v }
+  | some sl =>
+    match getSeverityNamed sl v with
+    | none => .error (.config "unknownSeverity" (sevNameStr v))
+    | some s => .ok { r with severity := some s }
 
 /-- loop body of `configure_global_rule_attributes`: guard `in self.configuration` -/
 def assignGlobal (sevs : Option (List Sev)) (r : RuleObj) (kv : String × Val) : Except Err RuleObj :=
